@@ -51,9 +51,45 @@ CLAIMS = {
             "Decides, for every exported setting class and every nesting depth and exception point at once, that __exit__ restores on every path every global field __enter__ may write, from the value captured from that same field; overrides chain; __exit__ never swallows; nobody else in gpytorch writes the globals; settings are entered on fresh instances; documented default = coded default. Does not decide thread-safety."),
 }
 
-NOT_APPLICABLE = {
-    "C13": "quadrature exactness, the probit identity and log-Phi accuracy are numerical analysis of node/weight tables and piecewise approximations; nothing in code shape decides them",
-}
+CLAIMS["C13"] = ("monomial (rational-exponent) algebra on the quadrature change of variables, integrand/return shape of the one-dimensional likelihoods, cell decomposition of the masked cases of LogNormalCDF (ast)",
+                 "Thin claim, the structural clauses ONLY: GaussHermiteQuadrature1D.forward is sum over the node axes of pi^(-1/2) w func(m + 2^(1/2) v^(1/2) t) with (t, w) = hermgauss(num_locs) and num_locs defaulting to the setting; expected_log_prob = Q[log p(y|f)] and log_marginal = log Q[exp log p(y|f)] over the given distribution; Bernoulli conditional Phi(f), analytic marginal Phi(m (1+v)^(-1/2)), expected_log_prob = Q[log Phi(f (2y-1))]; Laplace / Student-t / Beta conditionals have the documented parameters; the masked cases of LogNormalCDF.forward / backward partition the real line, compute from their own elements and agree between forward and backward. Exactness for polynomials below degree 2n, the truncation error, the value of the hermgauss table and the 2e-3 accuracy of log_normal_cdf are numerical analysis and are NOT decided.")
+
+NOT_APPLICABLE = {}
+
+
+def rules_of(pid: str):
+    """(rule id, text) pairs declared by the rule module - read from its source, so the manifest cannot lag behind the checker"""
+    import ast
+    out, seen = [], set()
+    names = [pid.lower() + ".py"]
+    src_dir = os.path.join(HERE, "sa", "rules")
+    mod = ast.parse(open(os.path.join(src_dir, names[0])).read())
+    imported = [a.module.split(".")[-1] + ".py" for a in ast.walk(mod) if isinstance(a, ast.ImportFrom) and a.module and a.level == 1 and a.module.startswith("common_")]
+    for fn in names + imported:
+        t = ast.parse(open(os.path.join(src_dir, fn)).read())
+        for c in ast.walk(t):
+            if isinstance(c, ast.Call) and isinstance(c.func, ast.Attribute) and c.func.attr == "rule" and len(c.args) >= 2 and isinstance(c.args[0], ast.Constant) \
+                    and isinstance(c.args[0].value, str) and c.args[0].value.startswith(pid + "-") and c.args[0].value not in seen:
+                txt = None
+                try:
+                    txt = ast.literal_eval(c.args[1])
+                except Exception:
+                    if isinstance(c.args[1], ast.BinOp) and isinstance(c.args[1].left, ast.Constant):
+                        txt = str(c.args[1].left.value)
+                seen.add(c.args[0].value)
+                out.append((c.args[0].value, " ".join(str(txt or "").split())))
+            # a table {"Cnn-k": "text", ...} registered in a loop
+            if isinstance(c, ast.Dict) and c.keys and all(isinstance(k, ast.Constant) and isinstance(k.value, str) and k.value.startswith(pid + "-") for k in c.keys):
+                for k, v in zip(c.keys, c.values):
+                    try:
+                        txt = ast.literal_eval(v)
+                    except Exception:
+                        continue
+                    if k.value not in seen and isinstance(txt, str):
+                        seen.add(k.value)
+                        out.append((k.value, " ".join(txt.split())))
+    out.sort(key=lambda kv: int(kv[0].split("-")[1].rstrip("abcdefgh") or 0))
+    return out
 
 UNBUILT_REASON = "clause designed (DESIGN.md section 4) but its checker is not built yet; not claimed through a weaker rule"
 
@@ -66,6 +102,9 @@ def main():
         if not os.path.isfile(os.path.join(HERE, "sa", "rules", pid.lower() + ".py")):
             na.append({"property_id": pid, "reason": UNBUILT_REASON})
             continue
+        rl = rules_of(pid)
+        if rl:
+            text = text + " Rules evaluated on every run (%d): " % len(rl) + "; ".join("%s %s" % (k, (v[:157] + "...") if len(v) > 160 else v) for k, v in rl) + "."
         checks.append({
             "property_id": pid,
             "quick_cmd": "./check %s --tier quick" % pid,
